@@ -59,6 +59,18 @@ fn limb_ops(op: &str, a: &[&str]) -> Option<String> {
         }
         ("c03.l.checked_ops", [x, y]) => {
             let (x, y) = (Checked::new(arg!(limb(x))), Checked::new(arg!(limb(y))));
+            // sticky none in every operator form, either side (seed C13-m7: `Checked * &Checked` ignored a `None` rhs)
+            {
+                let none: Checked<Limb> = Checked(crypto_bigint::subtle::CtOption::new(Limb::ONE, 0u8.into()));
+                let (mut t1, mut t2, mut t3) = (x, x, none);
+                t1 *= none;
+                t2 *= &none;
+                t3 *= &x;
+                let forms = [x * none, x * &none, &x * none, &x * &none, none * x, none * &x, &none * x, &none * &x, t1, t2, t3];
+                if let Some(i) = forms.iter().position(|c| bool::from(c.0.is_some())) {
+                    return Some(format!("sticky-none-lost:form{i}"));
+                }
+            }
             let p = |c: Checked<Limb>| opt(Option::<Limb>::from(c.0), |v| lhex(*v));
             let mut w = x;
             w *= y;
@@ -140,6 +152,18 @@ fn u_eq<const N: usize>(op: &str, a: &[&str]) -> Option<String> {
         }
         ("c03.u.checked_ops", [x, y]) => {
             let (x, y) = (Checked::new(arg!(uint::<N>(x))), Checked::new(arg!(uint::<N>(y))));
+            // sticky none in every operator form, either side (seed C13-m7: `Checked * &Checked` ignored a `None` rhs)
+            {
+                let none: Checked<Uint<N>> = Checked(crypto_bigint::subtle::CtOption::new(Uint::<N>::ONE, 0u8.into()));
+                let (mut t1, mut t2, mut t3) = (x, x, none);
+                t1 *= none;
+                t2 *= &none;
+                t3 *= &x;
+                let forms = [x * none, x * &none, &x * none, &x * &none, none * x, none * &x, &none * x, &none * &x, t1, t2, t3];
+                if let Some(i) = forms.iter().position(|c| bool::from(c.0.is_some())) {
+                    return Some(format!("sticky-none-lost:form{i}"));
+                }
+            }
             let p = |c: Checked<Uint<N>>| opt(Option::<Uint<N>>::from(c.0), uhex);
             let mut w = x;
             w *= y;
@@ -228,6 +252,18 @@ fn i_eq<const N: usize>(op: &str, a: &[&str]) -> Option<String> {
     Some(match (op, a) {
         ("c03.i.checked_ops", [x, y]) => {
             let (x, y) = (Checked::new(arg!(int::<N>(x))), Checked::new(arg!(int::<N>(y))));
+            // sticky none in every operator form, either side (seed C13-m7: `Checked * &Checked` ignored a `None` rhs)
+            {
+                let none: Checked<Int<N>> = Checked(crypto_bigint::subtle::CtOption::new(Int::<N>::ONE, 0u8.into()));
+                let (mut t1, mut t2, mut t3) = (x, x, none);
+                t1 *= none;
+                t2 *= &none;
+                t3 *= &x;
+                let forms = [x * none, x * &none, &x * none, &x * &none, none * x, none * &x, &none * x, &none * &x, t1, t2, t3];
+                if let Some(i) = forms.iter().position(|c| bool::from(c.0.is_some())) {
+                    return Some(format!("sticky-none-lost:form{i}"));
+                }
+            }
             let p = |c: Checked<Int<N>>| opt(Option::<Int<N>>::from(c.0), ihex);
             let mut w = x;
             w *= y;
